@@ -6,7 +6,7 @@
                  invariant, because the nested object already sits behind the header when the parent writes it
    Result: `py_walk_ser_refines` - the Python templates' shape over the shipped Serializer emits the specification's bytes. *)
 From Verif Require Import Bits CPrims CPrimsThm PyPrims PyPrimsThm PyPrimsMoreThm.
-From Verif Require Import Wire WireThm WireThmRt Walker InstancesBase InstancesPy PyWalker PyWalkerThm.
+From Verif Require Import Wire WireThm WireThmRt TargetPre TargetPreThm Walker InstancesBase InstancesPy PyWalker PyWalkerThm PyWalkerPre.
 Local Open Scope nat_scope.
 
 (* a plain store of n bits f at the (byte-aligned) cursor: nothing else changes *)
@@ -114,19 +114,30 @@ Proof.
   destruct (py_store_inv buf off v ltac:(rewrite Hl; exact HLm) Hv ltac:(lia) Hz) as (b & -> & -> & _). reflexivity.
 Qed.
 
-(* ---- the Python serialization refinement about the shipped Serializer ---- *)
+(* ---- the Python serialization refinement about the shipped Serializer, with the explicit Python leaf
+   (Spec/TargetPre.v `py_enc_prim`: round-half-EVEN float16 etc.): the bytes are the specification's encoding of the PRE-ADJUSTED
+   value `py_pre t v` (= C03's `target_pre TgPy`): an exact float16 tie whose away-rounded half is odd is emitted as its even
+   neighbour (finding F-F16-TIE); for every other value `py_pre t v = v` ---- *)
 Theorem py_walk_ser_refines : forall u fs ext v cap,
   wf_ty (TComp u fs ext) = true -> bmax (TComp u fs ext) <= 8 * cap ->
-  py_walk_ser py_pyprims (TComp u fs ext) v cap = ser_spec (TComp u fs ext) v cap.
+  py_walk_ser py_pyprims py_enc_prim (TComp u fs ext) v cap = ser_spec (TComp u fs ext) (py_pre (TComp u fs ext) v) cap.
 Proof.
-  intros u fs ext v cap Hwf Hge. apply py_walk_ser_refines_on; try assumption; [apply py_add_law | apply py_hdr_plain]; lia.
+  intros u fs ext v cap Hwf Hge. apply py_walk_ser_pre_refines_on; try assumption; [apply py_add_law | apply py_hdr_plain]; lia.
 Qed.
 
-(* non-vacuity: a union holding a delimited structure, through the shipped Serializer model *)
+Corollary py_walk_ser_refines_tie_free : forall u fs ext v cap,
+  wf_ty (TComp u fs ext) = true -> bmax (TComp u fs ext) <= 8 * cap -> no_f16_tie (TComp u fs ext) v = true ->
+  py_walk_ser py_pyprims py_enc_prim (TComp u fs ext) v cap = ser_spec (TComp u fs ext) v cap.
+Proof. intros u fs ext v cap Hwf Hge Ht. rewrite py_walk_ser_refines by assumption. rewrite py_pre_id by exact Ht. reflexivity. Qed.
+
+(* non-vacuity, and the audit's witness: the float16 field holds the exact tie 0x3F801000 (1 + 2^-11); Python emits 0x3C00 (15360),
+   the ties-away specification on the unadjusted value 0x3C01 (15361) *)
 Example py_walk_ser_example :
   let inner := TComp false [TPrim (PU 3 true); TPrim (PS 13 true); TPrim (PF 16 true)] (Some 64) in
   let t := TComp true [TPrim (PU 8 true); inner; TVar (TPrim PBool) 9] None in
   let v := VUnion 1 (VStruct [VInt 9; VInt (-5000); VFlt 1065357312%N]) in
-  py_walk_ser py_pyprims t v 13 = enc_body t v /\
-  enc_body t v = Ok (bits_of_N 8 1 ++ bits_of_N 32 4 ++ bits_of_N 3 7 ++ bits_of_N 13 4096 ++ bits_of_N 16 15361).
-Proof. vm_compute. split; reflexivity. Qed.
+  py_walk_ser py_pyprims py_enc_prim t v 13 =
+    Ok (bits_of_N 8 1 ++ bits_of_N 32 4 ++ bits_of_N 3 7 ++ bits_of_N 13 4096 ++ bits_of_N 16 15360) /\
+  enc_body t v = Ok (bits_of_N 8 1 ++ bits_of_N 32 4 ++ bits_of_N 3 7 ++ bits_of_N 13 4096 ++ bits_of_N 16 15361) /\
+  no_f16_tie t v = false.
+Proof. vm_compute. repeat split; reflexivity. Qed.
